@@ -4,6 +4,9 @@
 
     cuefdef <id> (case "<pkg>" (top ("<selector>" "<name>" CV)…))   → ok | bad-…
     cuefront <id>                                                   → ok <VIR of (schemas S)> | err | panic   (the MODEL `cueFront`)
+    cuefdoc <id> <real-id> <root> <json-sexp>                       → valid= validF= strict= plainS= e2e= frag= wf= src= msrc= why= notfrag=
+        valid / validF : `cueValid` with the permissive / literal reading of CUE's float types; strict : `cueValid` strict;
+        frag : FragCue ∧ `agree` on the REAL IR; src / msrc : srcDen of the real / the model's IR
 
   CV ::= (cv (i ikind kind op nargs enumOK floatish) [(ref "path" "name" "pkg")] [(dflt CS "refpath" eqSelf) | (ldflt eqSelf)]
              (conc bool CS) (attrs (at "name" (args ("k" "v")…) LOOK LOOK)…) (docs "text"…) [(pair eq sub "ref0")] (orsplit bool…)
@@ -13,9 +16,10 @@
   LOOK ::= (none) | (some "text") | (err)          values are VIR values (Cog/IR/Vir.lean)
 -/
 import Cog.Front.Cue
+import Cog.Front.CueValid
 import Cog.Drv.FrontDrv
 namespace Cog.Drv
-open Cog Cog.IR Cog.Front.Cue
+open Cog Cog.IR Cog.Sem Cog.Sem.Src Cog.Front.Cue
 
 partial def csIn : Sexp → Option CS
   | .list [.atom "null"] => some .null
@@ -110,6 +114,8 @@ structure FrontCueCase where
   pkg : String
   top : Top
   model : Outcome Schemas
+  frag : Bool
+  notfrag : String
 
 initialize frontCueStore : IO.Ref (Std.HashMap String FrontCueCase) ← IO.mkRef {}
 
@@ -129,7 +135,9 @@ def cuefdefLine (rest : String) : IO String := do
     | some sx => match cueCaseIn sx with
       | none => return "bad-case"
       | some (pkg, top) =>
-        frontCueStore.modify (·.insert id { pkg := pkg, top := top, model := cueFront pkg frontFuel top })
+        let c : FrontCueCase := { pkg := pkg, top := top, model := cueFront pkg frontFuel top,
+                                  frag := FragCue pkg frontFuel top, notfrag := fragCueWhy pkg frontFuel top }
+        frontCueStore.modify (·.insert id c)
         return "ok"
   | _ => return "bad-request"
 
@@ -137,5 +145,39 @@ def cuefrontLine (rest : String) : IO String := do
   match (← frontCueStore.get).get? rest.trimAscii.toString with
   | none => return "unknown-case"
   | some c => return Vir.outcomeOut Vir.schemasOut c.model
+
+def cuefdocLine (rest : String) : IO String := do
+  match rest.splitOn " " with
+  | id :: realId :: root :: js =>
+    match (← frontCueStore.get).get? id, ← getSchemas realId with
+    | some c, some real =>
+      match (Sexp.parse (" ".intercalate js)).bind Json.ofSexp with
+      | none => return "bad-json"
+      | some j =>
+        let n := frontFuel
+        let valid := cueValidDef false false isDateTime c.pkg c.top n root j
+        let validF := cueValidDef false true isDateTime c.pkg c.top n root j
+        let strict := cueValidDef true false isDateTime c.pkg c.top n root j
+        let t : Ty := .ref c.pkg root {}
+        let src := srcDen (n + 1) real t j
+        let msrc := match c.model with
+          | .ok m => toString (srcDen (n + 1) m t j)
+          | _ => "err"
+        let why := if src then "-" else (srcWhy real (n + 1) t j).getD "unexplained"
+        let frag := c.frag && agree c.pkg c.top real
+        let prep ← srcPrep realId real
+        let e2e :=
+          if frag && prep.plainS && cueValidDef true false isDateTime c.pkg c.top e2eFuel root j then
+            match prep.model with
+            | some S' =>
+              (match goRoundTrip (e2eFuel + 1 + 1) S' c.pkg root j with
+               | .ok j' => toString (Json.eqv j' j)
+               | _ => "false")
+            | none => "chain-err"
+          else "n/a"
+        return s!"valid={valid} validF={validF} strict={strict} plainS={prep.plainS} e2e={e2e} frag={frag} wf={wfDeep j} src={src} msrc={msrc} why={why} notfrag={c.notfrag}"
+    | none, _ => return "unknown-case"
+    | _, none => return "unknown-schemas"
+  | _ => return "bad-request"
 
 end Cog.Drv
